@@ -566,12 +566,55 @@ func c15(c *core.Ctx) {
 			keys = append(keys, k)
 		}
 		sort.Strings(keys)
+		// sites that moved inside their package (a helper was extracted, a function renamed) stay inside the package's budget for that
+		// kind of site: budget = inventoried count of (package, kind) minus what the inventoried functions still contain
+		pkgKind := func(k string) string {
+			i := strings.Index(k, "#")
+			fn, kind := k[:i], k[i:]
+			fn = strings.TrimPrefix(fn, "(*")
+			fn = strings.TrimPrefix(fn, "(")
+			if j := strings.LastIndex(fn, "."); j >= 0 {
+				fn = fn[:j]
+			}
+			if j := strings.LastIndex(fn, "."); j >= 0 && strings.Contains(fn[j:], ")") {
+				fn = fn[:j]
+			}
+			fn = strings.TrimSuffix(fn, ")")
+			// fn is now "pkg/path.Type" or "pkg/path": cut the type
+			if j := strings.LastIndex(fn, "/"); j >= 0 {
+				if d := strings.Index(fn[j:], "."); d >= 0 {
+					fn = fn[:j+d]
+				}
+			} else if d := strings.Index(fn, "."); d >= 0 {
+				fn = fn[:d]
+			}
+			return fn + kind
+		}
+		budget := map[string]int{}
+		for k, e := range c15Inventory {
+			budget[pkgKind(k)] += e.n
+		}
+		for k, a := range found {
+			if e, ok := c15Inventory[k]; ok {
+				use := a.n
+				if use > e.n {
+					use = e.n
+				}
+				budget[pkgKind(k)] -= use
+			}
+		}
 		for _, k := range keys {
 			a := found[k]
 			e, listed := c15Inventory[k]
 			switch {
+			case !listed && budget[pkgKind(k)] >= a.n:
+				budget[pkgKind(k)] -= a.n
+				c.CheckTrivial("site/"+k, "crash-inventory", true, a.pos, "%d site(s) of a kind inventoried for this package under another function (moved inside the package; the package's count for this kind did not grow)", a.n)
 			case !listed:
 				c.Check("site/"+k, "crash-inventory", false, a.pos, "NEW crash site reachable from the network: %d × %s via %s — show the invariant that keeps remote input away from it and add it to the inventory, or remove it", a.n, k, a.path)
+			case a.n > e.n && budget[pkgKind(k)] >= a.n-e.n:
+				budget[pkgKind(k)] -= a.n - e.n
+				c.CheckTrivial("site/"+k, "crash-inventory", true, a.pos, "%d site(s), %d inventoried here, the rest moved in from another function of the package", a.n, e.n)
 			case a.n > e.n:
 				c.Check("site/"+k, "crash-inventory", false, a.pos, "%d sites of this kind, %d inventoried: a NEW crash site in an inventoried function (via %s)", a.n, e.n, a.path)
 			case strings.HasPrefix(e.why, "FINDING"):
